@@ -21,6 +21,13 @@ for n, m in rows:
         ", ".join(m.get("detected_by", [])) or "-", ", ".join(m.get("missed_by", [])) or "-",
         (m.get("first_signature", "") or "").replace("|", "/")))
 det = sum(1 for _, m in rows if m.get("detected_by"))
-out += ["", "%d of %d confirmed changes are detected by at least one check." % (det, len(rows)), ""]
+unclaimed = [(n, m) for n, m in rows if not m.get("detected_by") and str(m.get("note", "")).startswith("not claimed")]
+out += ["", "%d of %d confirmed changes are detected by at least one check; %d are recorded as not claimed:" % (det, len(rows), len(unclaimed)), ""]
+for n, m in unclaimed:
+    out.append("* **%s** - %s" % (n, m["note"]))
+other = [n for n, m in rows if not m.get("detected_by") and not str(m.get("note", "")).startswith("not claimed")]
+if other:
+    out += ["", "Missed without a recorded reason: " + ", ".join(other)]
+out.append("")
 open(os.path.join(S, "MATRIX.md"), "w").write("\n".join(out))
 print("MATRIX.md: %d rows, %d detected" % (len(rows), det))
